@@ -60,7 +60,7 @@ P = {
         "data with a fresh compression flag — including between the two halves of a surrogate pair —, inside rgRun/ExtRst; any "
         "per-segment 8/16-bit packing) parse_sst (sst_encode strs lay) = the stored texts — unbounded induction over strings and "
         "segments with the streaming-decoder state; plus string_read_exact, later_strings_unaffected, layout_irrelevant, "
-        "labelsst_resolves, record_iter_collects, sheet names / LABEL / STRING, C12_decoder_chunks. No known class left (CutInsidePair "
+        "labelsst_resolves, record_iter_collects, sheet names / LABEL / STRING, C12_decoder_chunks; C12_formula_string_any_split (a formula string result continued over STRING + CONTINUE records: every cut position, per-fragment 8/16-bit packing, flag-only continuations, cuts inside surrogate pairs) and C12_formula_string_layout_irrelevant. No known class left (CutInsidePair "
         "repaired in /repo by 55da979). Totality: C12_no_panic_parse_sst (all inputs: not Panic; not OutOfFuel at fuel 1 + total "
         "bytes; 3 x requested capacity <= total bytes), _short_string, _record_iter, _parse_string, _parse_label(_sst), "
         "_sheet_metadata, _wb_strings. Tie: hooks parse_sst/records/parse_string on extracted encodings, malformed fragments "
@@ -274,10 +274,10 @@ P = {
         "inline / formula string; plain, split into runs at arbitrary cut points, with phonetic runs; Text and CDATA chunks in any "
         "mixture; any namespace prefix); the ST_Xstring layer: C19_xstring_decode_is_spec, C19_xstring_roundtrip, "
         "C19_xstring_text_survives; ods: space runs (text:s with any count), paragraphs, tabs and line breaks (ods_encode_survives "
-        "for all texts); UTF-16: round trip and lone-surrogate characterisation for wide_str / decode_to. No known class left (five "
+        "for all texts); UTF-16: round trip and lone-surrogate characterisation for wide_str / decode_to; C19_text_survives_xls (shared / LABEL / formula string of an xls workbook, composed from C12's theorems). No known class left (five "
         "repaired in /repo). Totality: C19_no_panic_read_string / _read_shared_strings / _read_cell / _read_sheet_cells / "
-        "_read_sheet_formulas / _ods_cell / _wide_str (all event lists / byte strings). Tie: generated .xlsx and .ods files "
-        "(escape material, CDATA, rich runs, tabs / breaks everywhere) through the public API, hooks wide_str / decode_to.",
+        "_read_sheet_formulas / _ods_cell / _wide_str (all event lists / byte strings). Tie: generated .xlsx, .ods, .xls and .xlsb files "
+        "(escape material, CDATA, rich runs, tabs / breaks everywhere; xls shared / inline / formula strings up to 32767 units with CONTINUE cuts) through the public API, hooks wide_str / decode_to.",
    note=TB + " quick-xml tokenisation / entity unescaping / attribute parsing and zip are outside the model; <f> text and untyped cells are not unescaped by the code and the spec does not ask for it.",
    technique="Coq proof (state-machine induction over event lists; escape-layer arithmetic; UTF-16 codec) + extracted-model correspondence on real files",
    design_ref="5/C19"),
